@@ -184,3 +184,32 @@ package forwarder
 //@     assert [farid] forall j int :: idx < j && j < len(ies) ==> ies[j].Type != ie.FARID
 //@   at call UpdateFAROID:
 //@     assert [oid]   len(arg2) == 2 && arg2[0] == lSeid && arg2[1] == farid
+
+// BAR towards the kernel (C03).  Oracle: TS 29.244 8.2.28 - the Downlink Data Notification Delay IE carries one
+// octet in units of 50 ms (go-pfcp returns it as a time.Duration of that many 50 ms steps); gtp5g's attribute is that
+// octet.  The suggested buffering packets count is passed on unchanged.
+//@ func (g *Gtp5g) CreateBAR(lSeid uint64, req *ie.IE) (err error)
+//@   requires g != nil && g.link != nil && req != nil
+//@   modifies nothing
+//@   serves C03 C07
+//@   loop range(ies):
+//@     modifies nothing
+//@   at call append#1:
+//@     assert [delay] len(arg1) == 1 && arg1[0].Type == gtp5gnl.BAR_DOWNLINK_DATA_NOTIFICATION_DELAY && arg1[0].Value == iface(nl.AttrU8(uint8(v / 50000000)))
+//@   at call append#2:
+//@     assert [count] len(arg1) == 1 && arg1[0].Type == gtp5gnl.BAR_BUFFERING_PACKETS_COUNT && arg1[0].Value == iface(nl.AttrU16(v))
+//@   at call CreateBAROID:
+//@     assert [oid]   len(arg2) == 2 && arg2[0] == lSeid && arg2[1] == barid && arg3 == attrs
+
+//@ func (g *Gtp5g) UpdateBAR(lSeid uint64, req *ie.IE) (err error)
+//@   requires g != nil && g.link != nil && req != nil
+//@   modifies nothing
+//@   serves C03 C07
+//@   loop range(ies):
+//@     modifies nothing
+//@   at call append#1:
+//@     assert [delay] len(arg1) == 1 && arg1[0].Type == gtp5gnl.BAR_DOWNLINK_DATA_NOTIFICATION_DELAY && arg1[0].Value == iface(nl.AttrU8(uint8(v / 50000000)))
+//@   at call append#2:
+//@     assert [count] len(arg1) == 1 && arg1[0].Type == gtp5gnl.BAR_BUFFERING_PACKETS_COUNT && arg1[0].Value == iface(nl.AttrU16(v))
+//@   at call UpdateBAROID:
+//@     assert [oid]   len(arg2) == 2 && arg2[0] == lSeid && arg2[1] == barid && arg3 == attrs
